@@ -29,8 +29,8 @@ RULE = ("layouts: random placement of MemWord/MemUWord/Word/UWord/SWord/Register
         "transactions and >= 8 distinct addresses.")
 ASSUMPTIONS = ["vsim executes the emitted VHDL faithfully", "accesses are word aligned (documented)",
                "hw_clear pulses and Input port changes are applied only at quiescent points"]
-REQUIRE = {'quick': {'write_transactions': 3000, 'read_transactions': 3000, 'read_values_checked': 3000, 'export_checks': 20000},
-           'thorough': {'write_transactions': 100000, 'read_transactions': 100000, 'read_values_checked': 100000, 'export_checks': 500000}}
+REQUIRE = {'quick': {'designs_accepted': 22, 'write_transactions': 3000, 'read_transactions': 3000, 'read_values_checked': 3000, 'export_checks': 20000},
+           'thorough': {'designs_accepted': 290, 'write_transactions': 100000, 'read_transactions': 100000, 'read_values_checked': 100000, 'export_checks': 500000}}
 
 PROFILES = {
     # p_aw, p_w, p_b, p_ar, p_r, outstanding, skew
@@ -365,6 +365,7 @@ def run_case(case):
         unload(mod)
     viol = []
     sigs = []
+    cnt['designs_accepted'] += 1      # (every generated layout is a documented one: rejections are counted and bounded by REQUIRE)
     for k in lay.items:
         cnt['items:' + k.kind] += 1
     for prof in case['profiles']:
